@@ -370,7 +370,14 @@ def b_any(ex, it):
 
 
 def b_reversed(ex, it):
+    it = ex.concretize(it)
+    if hasattr(it, 'sym_getitem') and not isinstance(it, (list, tuple)):
+        return it.sym_getitem(ex, slice(None, None, -1))
     return list(ex.iterate(it))[::-1]
+
+
+def b_divmod(ex, a, b):
+    return (a // b, a % b)
 
 
 def b_getattr(ex, obj, name, *default):
@@ -383,7 +390,7 @@ def b_getattr(ex, obj, name, *default):
 
 
 BUILTINS = {}
-for _n, _f in [('all', b_all), ('any', b_any), ('reversed', b_reversed), ('getattr', b_getattr),
+for _n, _f in [('all', b_all), ('any', b_any), ('reversed', b_reversed), ('getattr', b_getattr), ('divmod', b_divmod),
                ('len', b_len), ('isinstance', b_isinstance), ('int', b_int), ('float', b_float), ('round', b_round),
                ('bool', b_bool), ('str', b_str), ('bytes', b_bytes), ('bytearray', b_bytearray), ('range', b_range),
                ('min', b_min), ('max', b_max), ('sum', b_sum), ('sorted', b_sorted), ('list', b_list),
